@@ -143,8 +143,23 @@ func (s *Session) BuildVote(vc *voteCtx, kind, payload string, data []byte, vs V
 	if real == nil {
 		real = vs.Marks
 	}
-	v := &relayertypes.Votes{Sequence: vc.Seq, Epoch: vc.Epoch, Voters: vote.Bitmap(real, vs.BitmapLen), Signature: sig}
-	f := Ev{"mseq": int64(vc.Seq), "mepoch": int64(vc.Epoch)}
+	blen := vs.BitmapLen
+	if blen < 0 {
+		blen = 0
+	}
+	v := &relayertypes.Votes{Sequence: vc.Seq, Epoch: vc.Epoch, Voters: vote.Bitmap(real, blen), Signature: sig}
+	f := Ev{"mseq": int64(vc.Seq), "mepoch": int64(vc.Epoch), "enc": "canon"}
+	if vs.BitmapLen < 0 {
+		// the same marks in a NON-CANONICAL encoding: trailing zero bytes cut off (the length is no multiple of 8 any more). Whether
+		// such an encoding is admissible is not part of the property; if it is accepted, the quorum behind it must be genuine
+		bm := v.Voters
+		for len(bm) > 1 && bm[len(bm)-1] == 0 {
+			bm = bm[:len(bm)-1]
+		}
+		if len(bm)%8 != 0 {
+			v.Voters, f["enc"] = bm, "trimmed"
+		}
+	}
 	switch vs.Mut {
 	case "msgSeqPlus":
 		v.Sequence++
@@ -259,7 +274,7 @@ func (s *Session) VotedTx(vc *voteCtx, kind string, vs VoteSpec, seqOffset int) 
 }
 
 func fillVoteDefaults(f Ev) {
-	for k, d := range map[string]interface{}{"key": "", "payTo": "", "start": 0, "nh": 0} {
+	for k, d := range map[string]interface{}{"key": "", "payTo": "", "start": 0, "nh": 0, "enc": "canon"} {
 		if _, ok := f[k]; !ok {
 			f[k] = d
 		}
@@ -394,7 +409,7 @@ func votedRun(w *tracew.Writer, cases []votedCase, n int, seed int64, inst, run 
 			for i, x := range cs.Signers {
 				sg[i] = x // proposer is member id 1, voter k is member id k+2: identical numbering
 			}
-			vs := VoteSpec{Marks: cs.Marks, RealMarks: real, Signers: sg, Mut: cs.Mut, BitmapLen: []int{0, 32, 8, 16}[(inst+cs.variant)%4]}
+			vs := VoteSpec{Marks: cs.Marks, RealMarks: real, Signers: sg, Mut: cs.Mut, BitmapLen: []int{0, 32, 8, 16, -1}[(inst+cs.variant)%5]}
 			pfID := vc.Proposer
 			if cs.Mut == "pfVoter" && len(vc.Voters) > 0 {
 				pfID = vc.Voters[0]
